@@ -1,2 +1,117 @@
-// stub
-static void run_c11(Context&) {}
+// C11: double-precision accuracy.  The domain cannot be enumerated: rapidcheck-driven boundary-directed sampling.
+static double ulp_step(double v, int k)
+{
+    uint64_t u;
+    memcpy(&u, &v, 8);
+    // move k ulps away from zero (k>0) or towards zero (k<0) in the bit-pattern ordering of |v|
+    u = (uint64_t)((int64_t)u + k);
+    double r;
+    memcpy(&r, &u, 8);
+    return r;
+}
+
+static rc::Gen<double> c11_arg(const Fn& f, int cls)
+{
+    using namespace rc;
+    const bool trig = mfn::kind_of(f) == mfn::K_TRIG;
+    auto mant = gen::map(gen::arbitrary<uint64_t>(), [](uint64_t v) { return 1.0 + (double)(mix64(v) >> 12) / 4503599627370496.0; });
+    auto sign = gen::arbitrary<bool>();
+    switch (cls)
+    {
+    case 0: // log-uniform over the whole exponent range
+        return gen::map(gen::tuple(gen::inRange<int>(-1021, 1024), mant, sign), [](std::tuple<int, double, bool> t) { double v = std::ldexp(std::get<1>(t), std::get<0>(t)); return std::get<2>(t) ? -v : v; });
+    case 1: // uniform in the core interval
+    {
+        const double lo = f.core_lo, hi = f.core_hi;
+        return gen::map(gen::arbitrary<uint64_t>(), [lo, hi](uint64_t v) { return lo + (hi - lo) * ((double)(mix64(v) >> 11) / 9007199254740992.0); });
+    }
+    case 2: // binade boundaries +- 64 ulp
+        return gen::map(gen::tuple(gen::inRange<int>(-1021, 1024), gen::inRange<int>(-64, 65), sign), [](std::tuple<int, int, bool> t) { double v = ulp_step(std::ldexp(1.0, std::get<0>(t)), std::get<1>(t)); return std::get<2>(t) ? -v : v; });
+    case 3: // switch points +- 64 ulp
+    {
+        std::vector<double> pts = f.points;
+        return gen::map(gen::tuple(gen::elementOf(pts), gen::inRange<int>(-64, 65), sign), [](std::tuple<double, int, bool> t) { double p = std::get<0>(t); double v = p == 0 ? std::get<1>(t) * 4.9406564584124654e-324 : ulp_step(p, std::get<1>(t)); return std::get<2>(t) ? -v : v; });
+    }
+    case 4: // k*pi/2 +- few ulp (trigonometric functions); otherwise small integers and half-integers +- ulp
+        if (trig)
+            return gen::map(gen::tuple(gen::inRange<int>(0, 60), mant, gen::inRange<int>(-64, 65), sign), [](std::tuple<int, double, int, bool> t) {
+                double k = std::floor(std::ldexp(std::get<1>(t), std::get<0>(t)));
+                double v = (double)((long double)k * 1.57079632679489661923132169163975144L);
+                v = ulp_step(v == 0 ? 1.5707963267948966 : v, std::get<2>(t));
+                return std::get<3>(t) ? -v : v; });
+        return gen::map(gen::tuple(gen::inRange<int>(-400, 401), gen::inRange<int>(-8, 9)), [](std::tuple<int, int> t) { double v = std::get<0>(t) / 2.0; return v == 0 ? std::get<1>(t) * 1e-300 : ulp_step(v, std::get<1>(t)); });
+    default: // moderate magnitudes
+        return gen::map(gen::tuple(gen::inRange<int>(-12, 13), mant, sign), [](std::tuple<int, double, bool> t) { double v = std::ldexp(std::get<1>(t), std::get<0>(t)); return std::get<2>(t) ? -v : v; });
+    }
+}
+static const double kCompanions64[] = { 0.3, 2.0, 50.0, 3000.0, 1e9, -0.7, 1e-3, -40.0, 1e300, 1e-300 };
+
+static void c11_unary(Context& cx, const Fn& f, mfn::Arbiter& arb, long budget)
+{
+    FnT ft = resolve_fn<double>(f, cx.opt);
+    if (ft.tg.empty())
+        return;
+    rc::detail::TestParams params = rc::detail::configuration().testParams;
+    params.seed = mix64(params.seed ^ hash_str(f.name, 64));
+    params.maxSuccess = (int)budget;
+    rc::detail::TestMetadata md;
+    md.id = std::string(f.name) + ":f64";
+    rc::detail::checkTestable(
+        [&]() {
+            const int cls = *rc::gen::resize(100, rc::gen::inRange<int>(0, 6));
+            const bool companion = *rc::gen::resize(100, rc::gen::inRange<int>(0, 4)) == 0;
+            auto v = *rc::gen::container<std::vector<double>>((size_t)8, rc::gen::resize(100, c11_arg(f, cls)));
+            double xs[8];
+            ld refs[8];
+            bool chk[8];
+            const int pos = companion ? *rc::gen::resize(100, rc::gen::inRange<int>(0, 8)) : 0;
+            const int cset = companion ? *rc::gen::resize(100, rc::gen::inRange<int>(0, 10)) : 0;
+            for (int l = 0; l < 8; ++l)
+            {
+                xs[l] = v[l];
+                chk[l] = true;
+                if (companion && (l % 2) != (pos % 2))
+                {
+                    // half of the lanes hold companions of very different magnitude (a NaN / inf among them now and then)
+                    xs[l] = kCompanions64[(cset + l) % 10];
+                    if (cset == 7 && l == (pos + 1) % 8)
+                        xs[l] = std::numeric_limits<double>::quiet_NaN();
+                    if (cset == 8 && l == (pos + 1) % 8)
+                        xs[l] = -std::numeric_limits<double>::infinity();
+                    chk[l] = false;
+                }
+                refs[l] = f.r64((ld)xs[l], 0);
+            }
+            cx.st.evaluations++;
+            cx.st.note_distinct(hash_bytes(xs, sizeof xs, hash_str(f.name)));
+            static const char* cn[] = { "log_uniform", "core_uniform", "binade_boundary", "switch_point", "k_pio2_or_half_integers", "moderate" };
+            cx.st.classes[std::string("class_") + cn[cls] + (companion ? "_companion" : "_neighbour")]++;
+            sample_case(cx, f.name, (std::string(cn[cls]) + (companion ? "_companion" : "")).c_str(), xs[pos], 0, 1);
+            bool ok = true;
+            for (size_t ti = 0; ti < ft.tg.size(); ++ti)
+            {
+                // narrower targets see the lanes of the case in consecutive batches
+                const int n = ft.e[ti]->lanes;
+                for (int b = 0; b < 8; b += n)
+                    ok = judge_batch<double>(cx, ft, ti, xs + b, nullptr, refs + b, chk + b, arb, companion ? "companion" : "neighbour") && ok;
+            }
+            (void)ok; // the search continues after a failure: records are already reduced to one argument
+        },
+        md, params);
+    cx.st.per_group[md.id] += (uint64_t)budget;
+}
+
+static void run_c11(Context& cx)
+{
+    mfn::Arbiter arb(256);
+    for (auto& f : mfn::table())
+    {
+        if (!cx.opt.only_ops.empty() && !cx.opt.only_ops.count(f.name))
+            continue;
+        if (f.arity == 1)
+            c11_unary(cx, f, arb, cx.opt.budget);
+        else
+            binary_pairs<double>(cx, f, arb, cx.opt.budget);
+        cx.write_out();
+    }
+}
